@@ -75,9 +75,16 @@ type recNode struct {
 	CloseErr  error
 	ReopenErr error
 	noCloser  bool
+	typePanics bool // Type() panics (user code called by the Broker while it validates a pipeline)
+	behindToll bool // registered behind a tollWrap: every invocation has to come through that decorator
 }
 
-func (n *recNode) Type() el.NodeType { return n.Kind }
+func (n *recNode) Type() el.NodeType {
+	if n.typePanics {
+		panic(fmt.Sprintf("node %s: Type() called before the node was configured", n.Label))
+	}
+	return n.Kind
+}
 
 func (n *recNode) Reopen() error {
 	simrt.Yield("node:reopen")
@@ -150,6 +157,9 @@ func (n *recNode) Process(ctx context.Context, e *el.Event) (*el.Event, error) {
 			}
 		}
 		h.lineage[e] = lin
+	}
+	if n.behindToll && ctx.Value(tollKey{}) != n {
+		h.rootBad = append(h.rootBad, fmt.Sprintf("%s: node %s was invoked directly, but the node registered under its id is a decorator around it (a NodeUnwrapper that is no Closer): the registered node was bypassed", lin, n.Label))
 	}
 	b := n.behaviour(lin)
 	rec := nodeRec{Node: n, InLin: lin, Beh: b, Task: simrt.TaskID(), Step: h.sim.Step, CtxErr: ctx.Err() != nil}
@@ -572,6 +582,31 @@ func (w *wrapNode) Reopen() error {
 	return w.inner.Reopen()
 }
 func (w *wrapNode) Type() el.NodeType { return w.inner.Type() }
+
+// bareNode is the non-Closer view of a recNode; tollWrap is a decorator (NodeUnwrapper) around it that
+// is no Closer either: nothing in its Unwrap chain can be closed, and the Broker has to invoke the
+// decorator, which is the registered node, not what it wraps.
+type bareNode struct{ inner *recNode }
+
+func (b bareNode) Process(ctx context.Context, e *el.Event) (*el.Event, error) {
+	return b.inner.Process(ctx, e)
+}
+func (b bareNode) Reopen() error     { return b.inner.Reopen() }
+func (b bareNode) Type() el.NodeType { return b.inner.Type() }
+
+type tollKey struct{}
+type tollWrap struct {
+	inner el.Node
+	obj   *recNode
+}
+
+func (t *tollWrap) Process(ctx context.Context, e *el.Event) (*el.Event, error) {
+	simrt.Probe("node.decorator-without-closer-invoked")
+	return t.inner.Process(context.WithValue(ctx, tollKey{}, t.obj), e)
+}
+func (t *tollWrap) Reopen() error     { return t.inner.Reopen() }
+func (t *tollWrap) Type() el.NodeType { return t.inner.Type() }
+func (t *tollWrap) Unwrap() el.Node   { return t.inner }
 
 // closerWrap is a decorator with resources of its own: a Closer AND a NodeUnwrapper. Closing the
 // registered node means calling ITS Close, which in turn closes what it wraps.
